@@ -220,16 +220,17 @@ def run(ctx):
     witness = deviation_witness(ctx)
     # 2. all small graphs
     ncases = {}
-    gcfgs = [('graphs-rot0', consts(NNode=3, FNodes=(100,), Holders=('direct', 'deep'), KindSets='KS_Rot0', MaxEdges=2), (100,))]
+    # node kinds of the quick configuration: newargs (root), gone, gonenew; plain nodes are in the programs
+    gcfgs = [('graphs-rot1', consts(NNode=3, FNodes=(100,), Holders=('direct', 'deep'), KindSets='KS_Rot1', MaxEdges=2), (100,))]
     if not q:
         gcfgs += [
-            ('graphs-3edges', consts(NNode=3, FNodes=(), Holders=('direct', 'list'), KindSets='KS_Rot1', MaxEdges=3), ()),
+            ('graphs-3edges', consts(NNode=3, FNodes=(), Holders=('direct', 'list'), KindSets='KS_Rot0', MaxEdges=3), ()),
             ('graphs-3holders', consts(NNode=3, FNodes=(100, 101), Holders=('list', 'dict', 'deep'),
                                        KindSets='KS_Rot2', MaxEdges=2), (100, 101)),
             ('graphs-rot3', consts(NNode=3, FNodes=(101,), Holders=('list', 'dict'), KindSets='KS_Rot3', MaxEdges=2), (101,)),
         ]
     for name, c, fn in gcfgs:
-        ncases[name] = graphs(ctx, tally, name, c, fn, both=not q and name == 'graphs-rot0')
+        ncases[name] = graphs(ctx, tally, name, c, fn, both=not q and name == 'graphs-rot1')
     # 3. mutation programs of a larger configuration
     big = consts(NNode=4, FNodes=(100, 101), Holders=('direct', 'list', 'dict', 'deep'), KindSets='KS_RootPlain',
                  MaxEdges=6, MaxOps=12, NCand=40, CandSize=6)
